@@ -604,8 +604,97 @@ def r6_capsule_has_one_owner(repo=None):
     return r
 
 
+def r7_first_sample_before_last(repo=None):
+    """'never fails ... visibility only grows': the per-directory bounds are taken with two listings, one ascending for the first
+    sample and one descending for the last.  Files only ever appear, so looking for the first sample *first* can at worst give
+    (None, last) - which the public get_bounds reports as "no data yet" - while the opposite order can give (first, None), a state
+    that never existed and that get_last_write / read turn into a TypeError.  Order of the two listings on the CFG of _get_bounds
+    (or, when one loop runs both, the order of the constants its `reverse` value is drawn from)."""
+    r = Rule("C09.R7", "the per-directory bounds look for the first sample before they look for the last one")
+    m = pyfront.mod("digital_rf_hdf5", repo)
+    q = TL + "._get_bounds"
+    fv = m.flat(q)
+    f = fv.fn()
+    g = fv.cfg()
+    calls = [c for c in ast.walk(f) if isinstance(c, ast.Call) and (pyfront.call_name(c) or "").endswith("ilsdrf")]
+    via_helper = {}
+    if not calls:
+        # the listing sits in a private helper that is not inlined (it returns from inside its loop): `self._find(..., reverse=False)`
+        for c in ast.walk(f):
+            if isinstance(c, ast.Call) and (pyfront.call_name(c) or "").startswith("self._"):
+                h = m.functions.get("%s.%s" % (TL, pyfront.call_name(c)[5:]))
+                if h is None:
+                    continue
+                inner = [x for x in ast.walk(h) if isinstance(x, ast.Call) and (pyfront.call_name(x) or "").endswith("ilsdrf")]
+                if len(inner) != 1:
+                    continue
+                rvh = pyfront.kwarg(inner[0], "reverse")
+                hp = [a.arg for a in h.args.args if a.arg != "self"]
+                if isinstance(rvh, ast.Name) and rvh.id in hp:
+                    idx = hp.index(rvh.id)
+                    arg = c.args[idx] if idx < len(c.args) else pyfront.kwarg(c, rvh.id)
+                    if arg is not None:
+                        calls.append(c)
+                        via_helper[id(c)] = arg
+    if not calls:
+        raise AnalysisError("%s: no listing call found" % q)
+    order = []          # (reverse constant, node) in execution order
+    for c in calls:
+        rv = via_helper.get(id(c)) if id(c) in via_helper else pyfront.kwarg(c, "reverse")
+        node = [n for n in g.nodes if any(x is c for x in pyfront.node_calls(n))]
+        if rv is None or not node:
+            raise AnalysisError("%s: `reverse` argument of a listing call not found" % q)
+        if isinstance(rv, ast.Constant) and isinstance(rv.value, bool):
+            order.append(([rv.value], node[0], c))
+        elif isinstance(rv, ast.Name):
+            # the loop variable of a loop over a literal: the constants in the order they are drawn
+            lp = fv.enclosing(c, (ast.For,))
+            while lp is not None and not any(isinstance(x, ast.Name) and x.id == rv.id for x in ast.walk(lp.target)):
+                lp = fv.enclosing(lp, (ast.For,))
+            it = lp.iter if lp is not None else None
+            if isinstance(it, ast.Name):
+                defs = [a.value for a in ast.walk(f) if isinstance(a, ast.Assign) and any(isinstance(t, ast.Name) and t.id == it.id for t in a.targets)]
+                it = defs[0] if len(defs) == 1 else it
+            if isinstance(it, ast.Call) and isinstance(it.func, ast.Attribute) and it.func.attr in ("items", "keys") and isinstance(it.func.value, ast.Name):
+                defs = [a.value for a in ast.walk(f) if isinstance(a, ast.Assign) and any(isinstance(t, ast.Name) and t.id == it.func.value.id for t in a.targets)]
+                it = defs[0] if len(defs) == 1 else it
+            vals = None
+            if isinstance(it, ast.Dict) and all(isinstance(k, ast.Constant) and isinstance(k.value, bool) for k in it.keys):
+                vals = [k.value for k in it.keys]
+            elif isinstance(it, (ast.Tuple, ast.List)):
+                elts = [e.elts[0] if isinstance(e, ast.Tuple) and e.elts else e for e in it.elts]
+                if all(isinstance(e, ast.Constant) and isinstance(e.value, bool) for e in elts):
+                    vals = [e.value for e in elts]
+            if vals is None:
+                raise AnalysisError("%s: the values `%s` takes were not recognised" % (q, rv.id))
+            order.append((vals, node[0], c))
+        else:
+            raise AnalysisError("%s: `reverse=%s` not recognised" % (q, norm(ast.unparse(rv))))
+    # execution order of the call nodes: a node that can reach the other without the other reaching it first
+    seq = []
+    todo = list(order)
+    while todo:
+        firsts = [o for o in todo if not any(p is not o and o[1].id in g.reach([p[1].id], skip_labels=("exc", "back")) and p[1].id not in g.reach([o[1].id], skip_labels=("exc", "back")) for p in todo)]
+        if not firsts:
+            raise AnalysisError("%s: order of the listing calls not determined" % q)
+        seq.append(firsts[0])
+        todo = [o for o in todo if o is not firsts[0]]
+    flat = [v for vals, node, c in seq for v in vals]
+    site = "%s:%s %s" % (m.rel, seq[0][2].lineno, q)
+    if flat and flat[0] is False and True in flat and flat.index(True) > 0 and False not in flat[flat.index(True):]:
+        r.ok(site, "ascending listing (first sample) before the descending one (last sample)")
+    elif set(flat) == {False, True}:
+        r.violation(m.rel, q, "listings run with reverse = %s" % flat, "the last sample is looked for before the first one: a reader that polls "
+                    "while the writer finalizes the first file of a channel can see (first, None) - bounds that never existed - and "
+                    "get_last_write / read fail with a TypeError on them", line=seq[0][2].lineno)
+    else:
+        raise AnalysisError("%s: listings with reverse = %s (one ascending and one descending expected)" % (q, flat))
+    r.guard(1)
+    return r
+
+
 def rules(repo=None):
-    return [lambda: r5_snapshot_spans_all_directories(repo), lambda: r6_capsule_has_one_owner(repo), _rebrand(lambda: c02.r1_tmp_provenance(repo), "C09.P1"), _rebrand(lambda: c02.r2_publish_after_close(repo), "C09.P2"),
+    return [lambda: r7_first_sample_before_last(repo), lambda: r5_snapshot_spans_all_directories(repo), lambda: r6_capsule_has_one_owner(repo), _rebrand(lambda: c02.r1_tmp_provenance(repo), "C09.P1"), _rebrand(lambda: c02.r2_publish_after_close(repo), "C09.P2"),
             _rebrand(lambda: c02.r3_no_writer_of_final(repo), "C09.P3"), _rebrand(lambda: c02.r4_staged_creation(repo), "C09.P4"),
             _rebrand(lambda: c02.r5_readers_ignore_tmp(repo), "C09.P5"),
             _rebrand(lambda: c02.r6_identity_stable_until_published(repo), "C09.P6"),
@@ -632,7 +721,9 @@ EXPLANATION = (
     "that holds the extension's writer object (its destructor closes and renames); every read of that attribute is a "
     'direct argument of an extension call, a test, or the delete - a second reference in a local alive across a call or '
     'raise (directly or through a helper that returns the object) survives in a traceback and is reported, any other use '
-    'is not decided. Does NOT decide failures outside the protocol (EMFILE, permissions) or timing.')
+    'is not decided. R7: in the per-directory bounds the ascending listing (first sample) runs before the descending one '
+    '(files only appear: (None, last) is harmless, (first, None) never existed). Does NOT decide failures outside the '
+    'protocol (EMFILE, permissions) or timing.')
 TECHNIQUE = ("C02's protocol rules + package call graph reachability (read roles), CFG checks of vanished-file tolerance, cache key def-use")
 ASSUMPTIONS = c02.ASSUMPTIONS + ["a finalized RF file is never modified (C02.R3), so cached index data cannot go stale"]
 FILES = c02.FILES
